@@ -39,7 +39,24 @@ def _bounds(rng):
     return [lo, hi]
 
 
-def _prior_spec(rng, bounds=None):
+def _sbounds(rng):
+    """Bounds of a parameter that lives in linear space only: may be
+    negative, may touch or straddle zero."""
+    r = rng.random()
+    if r < 0.3:
+        return [0.0, 10 ** rng.uniform(-2, 2)]
+    if r < 0.6:
+        return [-10 ** rng.uniform(-2, 2), 10 ** rng.uniform(-2, 2)]
+    hi = -10 ** rng.uniform(-3, 1)
+    return [hi - 10 ** rng.uniform(-2, 2), hi]
+
+
+def _prior_spec(rng, bounds=None, signed=False):
+    if signed:
+        if rng.random() < 0.6:
+            return {'kind': 'Uniform', 'args': {'bounds': _sbounds(rng)}}
+        return {'kind': 'Gaussian', 'args': {'mean': rng.uniform(-5, 5),
+                                             'std': rng.uniform(0.01, 2)}}
     kind = rng.choice(['Uniform', 'LogUniform', 'LogUniform', 'Gaussian',
                        'LogGaussian'])
     if kind == 'Uniform':
@@ -63,6 +80,14 @@ def gen_config(rng, kind='toy'):
     no = rng.choice([0, 0, 1, 2])
     mp, op = [], []
     for i in range(nm):
+        if rng.random() < 0.2:
+            # lives in linear space only: signed bounds, value may be 0
+            b = _sbounds(rng)
+            v = rng.choice([0.0, b[0], b[0] + rng.random() * (b[1] - b[0])])
+            mp.append({'name': 'p%d' % i, 'mode': 'linear',
+                       'fit': rng.random() < 0.3, 'bounds': b, 'value': v,
+                       'signed': True})
+            continue
         b = _bounds(rng)
         mp.append({'name': 'p%d' % i, 'mode': rng.choice(['linear', 'log']),
                    'fit': rng.random() < 0.3, 'bounds': b,
@@ -88,6 +113,8 @@ def gen_ops(rng, cfg, nops):
     names = [p['name'] for p in cfg['mparams'] + cfg['oparams']
              if p.get('touch', True)]
     dnames = [d['name'] for d in cfg['mderived'] + cfg['oderived']]
+    signed = set(p['name'] for p in cfg['mparams'] + cfg['oparams']
+                 if p.get('signed'))
     ops = []
     # swarm: per-run op weights
     w = {
@@ -109,15 +136,21 @@ def gen_ops(rng, cfg, nops):
         if k in ('enable_fit', 'disable_fit'):
             ops.append([k, rng.choice(names)])
         elif k == 'set_mode':
-            ops.append([k, rng.choice(names),
-                        rng.choice(['linear', 'log', 'LOG', 'Linear', 'log'])])
+            n = rng.choice(names)
+            ops.append([k, n, rng.choice(['linear', 'Linear']) if n in signed
+                        else rng.choice(['linear', 'log', 'LOG', 'Linear',
+                                         'log'])])
         elif k == 'set_boundary':
-            ops.append([k, rng.choice(names), _bounds(rng)])
+            n = rng.choice(names)
+            ops.append([k, n, _sbounds(rng) if n in signed else _bounds(rng)])
         elif k == 'set_factor_boundary':
             f0 = rng.uniform(0.1, 0.9)
-            ops.append([k, rng.choice(names), [f0, rng.uniform(1.1, 10)]])
+            n = rng.choice(names)
+            if n not in signed:
+                ops.append([k, n, [f0, rng.uniform(1.1, 10)]])
         elif k == 'set_prior':
-            ops.append([k, rng.choice(names), _prior_spec(rng)])
+            n = rng.choice(names)
+            ops.append([k, n, _prior_spec(rng, signed=n in signed)])
         elif k in ('enable_derived', 'disable_derived'):
             ops.append([k, rng.choice(dnames)])
         elif k == 'compile':
@@ -125,7 +158,10 @@ def gen_ops(rng, cfg, nops):
         elif k == 'update_model':
             ops.append([k, [rng.uniform(0.02, 0.98) for _ in range(8)]])
         elif k == 'direct_write':
-            ops.append([k, rng.choice(names), 10 ** rng.uniform(-3, 3)])
+            n = rng.choice(names)
+            ops.append([k, n, rng.choice([0.0, -10 ** rng.uniform(-3, 2),
+                                          10 ** rng.uniform(-3, 2)])
+                        if n in signed else 10 ** rng.uniform(-3, 3)])
         elif k == 'misuse':
             ops.append([k, rng.choice(MUTATORS + ['bad_mode', 'wrong_len_long',
                                                   'wrong_len_short',
@@ -138,14 +174,16 @@ def gen_ops(rng, cfg, nops):
             for n in rng.sample(names, rng.randint(1, len(names))):
                 e = {'fit': rng.random() < 0.6}
                 r = rng.random()
+                sg = n in signed
                 if r < 0.3:
-                    e['bounds'] = _bounds(rng)
-                elif r < 0.45:
+                    e['bounds'] = _sbounds(rng) if sg else _bounds(rng)
+                elif r < 0.45 and not sg:
                     e['factor'] = [rng.uniform(0.1, 0.9), rng.uniform(1.1, 10)]
                 if rng.random() < 0.4:
-                    e['mode'] = rng.choice(['linear', 'log', 'LOG', 'Linear'])
+                    e['mode'] = rng.choice(['linear', 'Linear']) if sg else \
+                        rng.choice(['linear', 'log', 'LOG', 'Linear'])
                 if rng.random() < 0.3:
-                    e['prior'] = _prior_spec(rng)
+                    e['prior'] = _prior_spec(rng, signed=sg)
                 ents.append([n, e])
             dents = [[n, rng.random() < 0.5]
                      for n in rng.sample(dnames, rng.randint(0, len(dnames)))]
@@ -520,6 +558,9 @@ def execute(case, keep_text=False):
                     out.bump('probes', 'obs_param_fitted')
                 dirty_since_compile = False
                 direct_since_compile = False
+                if any(c['bounds'][0] <= 0 or ref.values[c['name']] <= 0
+                       for c in ref.compiled):
+                    out.bump('probes', 'nonpositive_param_fitted')
                 check_views(step)
             elif k == 'update_model':
                 if ref.compiled is None:
